@@ -1,6 +1,8 @@
 import InTotoModel.Lemmas.VerifySpec
 import InTotoModel.Lemmas.Fuel
 import InTotoModel.Lemmas.InspectOrder
+import InTotoModel.Lemmas.TimeMono
+import InTotoModel.Lemmas.OtherFiles
 import InTotoModel.Props.Scenario
 /-
   The pipeline model computes the specification `Spec/Verify.lean` - soundness *and* completeness of
@@ -285,5 +287,89 @@ theorem c03_match_from_a_later_inspection_is_honoured :
     exact List.perm_append_comm (l₁ := [Scenario.checkInsp]) (l₂ := Scenario.layout.inspect)
   · rw [← okPart_verify_eq_accepts Scenario.env Scenario.idOrd Scenario.idOrd_valid, okPart_verify_eq_verifyC,
       Scenario.fails_without_the_other_inspection]
+
+end InToto.VerifySpec
+
+namespace InToto.VerifySpec
+open InToto InToto.Verify
+
+variable {K : Type}
+
+/-! ### C06 over all moments: the verdict as a function of the clock -/
+
+/-- C06 (every verification time): what verification accepts at some moment it accepts, with the same
+    summary, at every earlier moment - at the top and in every delegated layout, whatever the iteration
+    orders.  The moment enters through the comparison with the expiry dates and through nothing else. -/
+theorem c06_accepted_at_every_earlier_moment (env : Env K) (ord ord' : Ord) (hord : ord.Valid) (hord' : ord'.Valid)
+    (now' : List Str → Int) (hn : ∀ p, now' p ≤ env.now p)
+    (fuel : Nat) (path : List Str) (b : Block K) (keys : List K) (dir : Dir K) (name : Str) (out : Link)
+    (h : (verify env ord fuel path b keys dir name).1 = .ok out) :
+    (verify (atTime env now') ord' fuel path b keys dir name).1 = .ok out := by
+  rw [← okPart_eq_some, okPart_verify_eq_accepts env ord hord] at h
+  rw [← okPart_eq_some, okPart_verify_eq_accepts (atTime env now') ord' hord']
+  exact accepts_earlier env now' hn fuel path b keys dir name out h
+
+/-- C06: a layout that has expired is refused from then on - at the moment it is found expired and at
+    every later one, whatever was answered about the same documents before -/
+theorem c06_refused_at_every_later_moment (env : Env K) (ord : Ord) (hord : ord.Valid)
+    (now' : List Str → Int) (fuel : Nat) (path : List Str) (b : Block K) (keys : List K) (dir : Dir K) (name : Str)
+    (L : Layout K) (hb : b.signed = .layout L) (hexp : L.expires < env.now path) (hn : env.now path ≤ now' path)
+    (out : Link) : (verify (atTime env now') ord fuel path b keys dir name).1 ≠ .ok out := by
+  intro h
+  rw [← okPart_eq_some, okPart_verify_eq_accepts (atTime env now') ord hord,
+    refused_once_expired env now' fuel path b keys dir name L hb hexp hn] at h
+  cases h
+
+/-- non-vacuity: the kernel-checked scenario (clock 100, expiry 200, a delegated layout expiring at 150) is
+    accepted at moment 0 by the theorem, and refused at 201 and ever after -/
+theorem c06_scenario_over_time :
+    (verify (atTime Scenario.env fun _ => 0) Scenario.revOrd 2 [] Scenario.block [0] Scenario.dir "final".toList).1
+        = .ok Scenario.summaryLink ∧
+      ∀ t : Int, 201 ≤ t → ∀ out,
+        (verify (atTime Scenario.env fun _ => t) Scenario.idOrd 2 [] Scenario.block [0] Scenario.dir "final".toList).1 ≠ .ok out := by
+  refine ⟨c06_accepted_at_every_earlier_moment Scenario.env Scenario.idOrd Scenario.revOrd Scenario.idOrd_valid
+      Scenario.revOrd_valid (fun _ => 0) (fun _ => (by decide : (0 : Int) ≤ 100)) 2 [] Scenario.block [0] Scenario.dir _ _ Scenario.verifies_id, ?_⟩
+  intro t ht out
+  exact c06_refused_at_every_later_moment (atTime Scenario.env fun _ => 201) Scenario.idOrd Scenario.idOrd_valid (fun _ => t) 2 []
+    Scenario.block [0] Scenario.dir _ Scenario.layout rfl (by decide) ht out
+
+end InToto.VerifySpec
+
+namespace InToto.VerifySpec
+open InToto InToto.Verify
+
+variable {K : Type}
+
+/-! ### C02 / C14 over all directory contents: only the files the layout names are looked at -/
+
+/-- C02 (every population of the link directory): a file that is named like no evidence of any step of
+    the layout - whatever it holds, readable or not - may be inserted anywhere into the listing of the
+    link directory: success and summary stay what they were, under any iteration orders. -/
+theorem c02_files_named_like_no_evidence_do_not_matter (env : Env K) (ord ord' : Ord) (hord : ord.Valid)
+    (hord' : ord'.Valid) (fuel : Nat) (path : List Str) (b : Block K) (keys : List K)
+    (pre post : List (Str × FileC K)) (subs : List (Str × Dir K)) (f : Str × FileC K) (name : Str)
+    (hf : ∀ L, b.signed = .layout L → ∀ st ∈ L.steps, matchesStepFile st.name f.1 = false) :
+    okPart (verify env ord (fuel + 1) path b keys (Dir.mk (pre ++ f :: post) subs) name).1 =
+      okPart (verify env ord' (fuel + 1) path b keys (Dir.mk (pre ++ post) subs) name).1 := by
+  rw [okPart_verify_eq_accepts env ord hord, okPart_verify_eq_accepts env ord' hord']
+  exact acceptsStep_insert_other (accepts env fuel) env path b keys pre post subs f name hf
+
+/-- non-vacuity: the kernel-checked scenario with an unreadable `README` and a stray, unreadable
+    `build.link` put between its link files verifies as before -/
+theorem c02_scenario_with_stray_files :
+    okPart (verify Scenario.env Scenario.revOrd 2 [] Scenario.block [0]
+      (Dir.mk (Scenario.dir.files.take 1 ++ ("README".toList, FileC.unreadable) ::
+        (("build.link".toList, FileC.unreadable) :: Scenario.dir.files.drop 1)) Scenario.dir.subs) "final".toList).1
+      = some Scenario.summaryLink := by
+  rw [c02_files_named_like_no_evidence_do_not_matter Scenario.env Scenario.revOrd Scenario.idOrd Scenario.revOrd_valid
+      Scenario.idOrd_valid 1 [] Scenario.block [0] (Scenario.dir.files.take 1) _ Scenario.dir.subs _ _
+      (by intro L hL st hst; cases hL; revert st hst; decide)]
+  rw [c02_files_named_like_no_evidence_do_not_matter Scenario.env Scenario.idOrd Scenario.idOrd Scenario.idOrd_valid
+      Scenario.idOrd_valid 1 [] Scenario.block [0] (Scenario.dir.files.take 1) (Scenario.dir.files.drop 1) Scenario.dir.subs
+      ("build.link".toList, FileC.unreadable) "final".toList
+      (by intro L hL st hst; cases hL; revert st hst; decide)]
+  have e : Dir.mk (Scenario.dir.files.take 1 ++ Scenario.dir.files.drop 1) Scenario.dir.subs = Scenario.dir := rfl
+  rw [e]
+  exact okPart_eq_some.mpr Scenario.verifies_id
 
 end InToto.VerifySpec
